@@ -205,7 +205,7 @@ func moveLib(l libShape, dx, dy float64) libShape {
 
 func c12Run(c *mon.Ctx) {
 	loadContainmentKnown(c)
-	o := pairOpts{random: c.Pick(1500000, 20000000)}
+	o := pairOpts{random: c.Pick(1500000, 20000000), large: c.Pick(60000, 1000000)}
 	item := 0
 	sink := func(a, b *exact.Shape, family string, corpus, closedA bool, n int) {
 		c12Pair(c, a, b, family, closedA, n)
@@ -217,6 +217,7 @@ func c12Run(c *mon.Ctx) {
 		}
 	}
 	randomPairs(c, o, &item, sink)
+	largePairs(c, o, &item, sink)
 	// corpus rings against a few fixed partners, every rotation
 	for ri, nr := range gen.Corpus {
 		for v := 0; v < 4; v++ {
